@@ -27,8 +27,15 @@ OPTSETS = [
 
 def jobs(prop, tier, seed):
     out = []
-    for pid in pools.ids("ser", tier):
-        spec, _ = pools.get("ser", pid)
+    ser_ids = pools.ids("ser", tier)
+    todo = [("ser", pid) for pid in ser_ids]
+    # discriminated unions (class alternatives: the reference image adds the discriminator key)
+    for pid in pools.ids("union", tier):
+        spec, _ = pools.get("union", pid)
+        if pid not in ser_ids and any(s.k == "disc" for s in walk(spec)) and not any(s.k == "obj" and s.opt("kind") == "typeddict" for s in walk(spec)):
+            todo.append(("union", pid))
+    for pool, pid in todo:
+        spec, _ = pools.get(pool, pid)
         if has_obj(spec):
             optsets = OPTSETS if tier == "thorough" else OPTSETS[:6]
             if tier == "quick" and any(s.k == "obj" and s.opt("kind") == "typeddict" for s in walk(spec)):
@@ -44,7 +51,7 @@ def jobs(prop, tier, seed):
             else:
                 b = dict(depth=3, width=3, strlen=3, td_extra=True)
                 budget_s = 120
-            out.append(dict(harness="C04", pool="ser", pid=pid, opts=o, bounds=b, budget_s=budget_s))
+            out.append(dict(harness="C04", pool=pool, pid=pid, opts=o, bounds=b, budget_s=budget_s))
     return out
 
 
